@@ -1443,6 +1443,13 @@ def target_worker_thread(host: str, port: int, shared_aconf: AuditConf) -> Tuple
         SSH1_KexDB.thread_exit()
         SSH2_KexDB.thread_exit()
 
+    # With JSON output, main() joins the per-target results into a single array.  A target that ended in an error has produced plain text only; report it as an object, so that the array stays well-formed.
+    if my_aconf.json:
+        try:
+            json.loads(string_output)
+        except ValueError:
+            string_output = json.dumps({"target": "%s:%d" % (host, port), "error": string_output.strip()}, indent=4 if my_aconf.json_print_indent else None, sort_keys=True)
+
     return ret, string_output
 
 
